@@ -51,16 +51,16 @@ def part_h2o_vap_press(dry_temp, pressure, rel_humidity=None, wet_temp=None):
     Reference Rueger, J.M., 2012, Electronic Distance Measurement – An Introduction, 4rd edition, Springer, Berlin
     """
     
-    if not rel_humidity and not wet_temp:
+    if rel_humidity is None and wet_temp is None:
         raise ValueError('Error - rel_humidity and wet_temp cannot both be None')
                          
-    if rel_humidity:
+    if rel_humidity is not None:
         wet_temp = dry_temp
     # Rueger eq 5.27
     E_w = ((1.0007 + ((3.46 * pressure) * (10**-6)))
          * 6.1121 * exp((17.502 * wet_temp) / (240.94 + wet_temp)))
     
-    if rel_humidity:
+    if rel_humidity is not None:
         # Rueger eq 5.29
         e = (E_w*rel_humidity)/100
     else:
@@ -95,7 +95,8 @@ def first_vel_corrn(dist, first_vel_param, temp, pressure,
         first_vel_corrn_metres = dist * first_vel_corrn_ppm * (10 ** -6)
         
     else:
-        if all([temp, pressure, rel_humidity, wavelength]):
+        if all(v is not None for v in
+               [temp, pressure, rel_humidity, wavelength]):
             e = humidity2part_water_vapour_press(rel_humidity, temp)
             NPROPG_1 = group_refractivity(
                 wavelength, temp, pressure, e, CO2_ppm)
